@@ -533,6 +533,30 @@ def _roles(ctx, g, fn, label, p_seq, p_at, p_wc):
             eq = True
         else:
             ahead = True
+    # ... and it is "ahead", not "behind": the distance is (awaited sequence number - tag) in wrapping arithmetic, and the
+    # test asks whether that distance is larger than the largest ring (i.e. negative): `past(seq, tag)`, not `past(tag, seq)`
+    dirs = []
+    for (rel, ca, cb) in comparisons:
+        if rel == 'Eq':
+            continue
+        for (small, big) in ((ca, cb),):
+            for s_ in g.walk(big):
+                w = None
+                if s_[0] == 'call' and re.search(r'wrapping_sub$', g.call_name(s_[1]) or ''):
+                    w = g.call_args(s_[1])[:2]
+                elif s_[0] == 'bin' and s_[1] in ('Sub', 'SubUnchecked', 'SubWithOverflow'):
+                    w = [s_[2], s_[3]]
+                if not w or len(w) < 2:
+                    continue
+                tag_in = [bool([l for l in x.loads_in(z) if all(from_param(y, p_at) for y in g.call_args(l.nid)[:1])]) for z in w]
+                seq_in = [from_param(z, p_seq) for z in w]
+                if any(tag_in) and any(seq_in):
+                    dirs.append(seq_in[0] and not tag_in[0] and tag_in[1] and g.strip(small)[0] == 'c')
+    if dirs:
+        okdir = all(dirs)
+        ctx.add('P7h', 'T-FLOW', fn, okdir, '%s: the "ahead" test measures (awaited number - tag) against the largest ring' % label if okdir else
+                '%s: the distance test of the wake-up condition is taken the wrong way round (tag - awaited number, or compared the other way): a slot that still carries the tag of an EARLIER lap counts as "ahead", so the waiter reports ready on an empty stream for ever (poll never returns NotReady, blocking receives spin)' % label,
+                sub=label + '|ahead-direction')
     ctx.add('P7h', 'T-FLOW', fn, eq and ahead, '%s: wakes when the tag equals the awaited sequence number or is ahead of it' % label if eq and ahead else
             '%s: the wake-up condition lacks the %s test between the slot tag and the awaited sequence number: on a stream shared by several consumers the tag can skip past the awaited number (sibling took the value, slot republished) and the sleeper never wakes'
             % (label, 'equality' if not eq else '"tag is ahead"'), sub=label + '|ahead')
